@@ -378,6 +378,8 @@ def _e_dyad_form(a, b, backend):
         return bknp.asarray([backend.vec_fn2(x, y, lambda x, y: _e_dyad_form(x, y, backend)) for x,y in zip(a,b)])
     if is_list(a) and not is_list(b):
         return backend.kg_asarray([_e_dyad_form(x, b, backend) for x in a])
+    if is_list(b) and is_empty(b):
+        return b
     return __e_dyad_form(a, b, backend)
 
 def eval_dyad_form(a, b, backend):
